@@ -15,6 +15,8 @@ def generate(tier, seed, info):
     bc = "default"
     lines = forms.gen_mov(c, 3 * n, bc=bc) + forms.gen_alu2(c, n, forms.ARITH2 + forms.LOGIC2, bc=bc)
     lines += forms.gen_alu1(c, n, forms.ARITH1 + forms.LOGIC1, bc=bc) + forms.gen_misc_arith(c, n, bc=bc) + forms.gen_bit(c, 2 * n, bc=bc)
+    # @ERn+ loads / @-ERn stores whose data register is (part of) the address register: charge-only claim
+    lines += forms.gen_mov(c, n // 2, modes=("inc",), bc=bc, allow_overlap=True)
     # control-flow / STC families take the settings through a wrapper
     extra = forms.gen_bcc(c, False, n) + forms.gen_calls(c, 2 * n) + forms.gen_exc(c, n) + forms.gen_stc(c, n)
     r = c.rnd
